@@ -129,6 +129,12 @@ func validSetup(r *RNG, cmd string) cmdSetup {
 }
 
 // corruptFasta applies one corruption to the record at position where (first/middle/last)
+// badSymbol: a symbol no FASTA reader accepts - an ASCII one, or a byte above 0x7f whose low seven bits are an accepted
+// symbol (a table indexed by a masked byte reads them as A, g, - and t), alone or as the two bytes of one UTF-8 character
+func badSymbol(r *RNG) string {
+	return r.PickStr([]string{"X", "J", "Z", "*", "1", "\xc1", "\xe7", "\xad", "\xf4", "\xc3\xad"})
+}
+
 func corruptFasta(r *RNG, txt, kind, where string) string {
 	lines := strings.Split(strings.TrimSuffix(txt, "\n"), "\n")
 	var seqIdx []int
@@ -154,7 +160,7 @@ func corruptFasta(r *RNG, txt, kind, where string) string {
 		lines[at] = lines[at] + "A"
 	case "bad-symbol":
 		p := r.Intn(len(lines[at]))
-		lines[at] = lines[at][:p] + string(r.Pick("XJZ*1")) + lines[at][p+1:]
+		lines[at] = lines[at][:p] + badSymbol(r) + lines[at][p+1:]
 	case "header-without-id":
 		// the header line of that record carries no ID: a bare '>' or '>' followed by white space only
 		if at > 0 && strings.HasPrefix(lines[at-1], ">") {
@@ -240,7 +246,7 @@ func execExitC18(c *Case, dir string) {
 	case "none":
 	case "short-row", "long-row", "bad-symbol", "header-without-id":
 		s.files[target] = corruptFasta(r, s.files[target], kind, c.Get("where"))
-		c.Set("text", s.files[target]).Set("file", target)
+		c.Set("text", strings.ToValidUTF8(s.files[target], "?")).Set("file", target) // the line protocol carries text: bytes that are not UTF-8 are shown as ?
 	case "late-short-row", "late-bad-symbol":
 		// the defect sits in the last of many records, far beyond what any reader has looked ahead to when the command
 		// could already know its answer (e.g. every query of `closest` has found an identical, complete target)
@@ -256,7 +262,7 @@ func execExitC18(c *Case, dir string) {
 				if kind == "late-short-row" {
 					q = q[:len(q)-1]
 				} else {
-					q = q[:len(q)/2] + "Z" + q[len(q)/2+1:]
+					q = q[:len(q)/2] + badSymbol(r) + q[len(q)/2+1:]
 				}
 			}
 			fmt.Fprintf(&b, ">late%d\n%s\n", k, q)
